@@ -3,6 +3,7 @@ CONSTANTS
   BufPairs <- ThoroughBufs
   Offsets <- ThoroughOffsets
   Stride = 1
+  FarBases <- ThoroughFarBases
 CONSTRAINT Export
 INVARIANT ImplTimeOnly
 INVARIANT ImplBoxes
@@ -13,6 +14,7 @@ INVARIANT LawSym
 INVARIANT LawSelf
 INVARIANT LawDisjoint
 INVARIANT LawShift
+INVARIANT LawOriginFree
 INVARIANT BoxLaws
 INVARIANT ExtentsInRange
 PROPERTY Terminates
